@@ -760,10 +760,12 @@ func (e *Engine) verifyProtocols(prop string) []*FuncResult {
 			if !contains(p.Props, prop) {
 				continue
 			}
+			missing := 0
 			for _, th := range p.Threads {
 				fn := e.findFunc(pk, th)
 				if fn == nil {
 					out = append(out, &FuncResult{Func: pkgBase(pk) + "." + th + " [protocol " + n + "]", Undecided: "thread function not found"})
+					missing++
 					continue
 				}
 				c := &Contract{Pkg: pk, Func: th, Props: p.Props, Proto: n, LoopInv: map[int][]*Clause{}, Unroll: map[int]int{}, NoFrame: true}
@@ -778,6 +780,13 @@ func (e *Engine) verifyProtocols(prop string) []*FuncResult {
 				delete(e.protoContract, fn)
 				r.Func += " [protocol " + n + "]"
 				out = append(out, r)
+			}
+			if missing > 0 {
+				// a listed thread function was renamed or removed: the protocol
+				// declaration no longer matches the source, so "every write happens
+				// inside a listed thread function" cannot be judged (the functions are
+				// reported undecided above); not a failed obligation
+				continue
 			}
 			if msg := e.accessClosed(pk, p); msg != "" {
 				ob := &Obligation{Kind: "proto", Clause: "access_closed", Name: pkgBase(pk) + "." + n + "/proto.access_closed", Props: p.Props, Func: "protocol " + n, Verdict: "refuted", Solver: "engine", Output: msg, Goal: "every write to a protocol location is an atomic operation inside a listed thread function; no plain access anywhere", Pos: p.Where}
